@@ -22,7 +22,11 @@ func tracedBuild(c *Ctx, g *GarbleBin, pool *Pool, w *Work, cfg Config, label st
 	os.RemoveAll(kept)
 	must(os.MkdirAll(kept, 0o755))
 	bin := filepath.Join(w.Root, "g-"+label+".bin")
-	r := w.garbleBuild(g, pool.Box(filepath.Join(w.Root, "tmp-"+label)), cfg, bin, []string{"GARBLE_VERIF_KEEPSRC=" + kept})
+	// a private hard-link view of the pool: no user package is a cache hit from another build of the
+	// run, so the kept sources (and with them the name map) are complete
+	box := linkCloneBox(pool, "nmbox-"+label)
+	defer chmodAndRemove(filepath.Dir(box.GoCache))
+	r := w.garbleBuild(g, box, cfg, bin, []string{"GARBLE_VERIF_KEEPSRC=" + kept})
 	if !r.OK() {
 		return nil, r, bin
 	}
